@@ -71,6 +71,9 @@ def _rel(p):
             r = os.path.relpath(p, SIM.root)
         except ValueError:
             return p
+        if r.startswith(".."):
+            # outside the simulated world (e.g. a temporary directory with a random name): only the file name is stable
+            return "<outside>/" + os.path.basename(p)
         return r
     return p
 
